@@ -61,7 +61,9 @@ namespace
     std::int64_t us(DateTime t) { return t.time_since_epoch().count(); }
     DateTime     dt(std::int64_t v) { return DateTime{TimeDelta{v}}; }
 
-    struct InSpec { std::size_t src; bool active; bool required; };
+    // wire value of the activity: 0 passive, 1 active, 2 active + wiring-time passive marker, 3 passive + marker
+    // (same as cxx/core_driver.cpp; the generator never produces a marker set the builder refuses)
+    struct InSpec { std::size_t src; bool active; bool required; bool marked; };
     struct Op { std::int64_t code, a, b; };
     struct GsOp { std::int64_t mode, key, val; };
     struct NodeSpec
@@ -195,6 +197,18 @@ namespace
                     auto bundle = root.as_bundle();
                     auto in     = bundle[(std::size_t)op.a];
                     if (op.code == 9) { in.make_passive(); } else { in.make_active(); }
+                    break;
+                }
+                case 11:
+                {
+                    // the producer invalidates its own output (same as cxx/core_driver.cpp)
+                    if (!n.has_out || !started) { break; }
+                    bool did = false;
+                    {
+                        auto mutation = view.output(now).begin_mutation(now);
+                        did = mutation.invalidate();
+                    }
+                    r.out.line({16, (std::int64_t)i, us(now), did});
                     break;
                 }
                 default: break;
@@ -360,8 +374,12 @@ namespace
                 run_ops(p, i, v, t, true, k);
                 maybe_sleep(r);
             };
-            if (endpoint) { gb.add_node(NodeBuilder::native(std::move(schema), std::move(cb), std::move(*endpoint))); }
-            else { gb.add_node(NodeBuilder::native(std::move(schema), std::move(cb))); }
+            std::vector<std::size_t> marked;
+            for (std::size_t s = 0; s < n.ins.size(); ++s) { if (n.ins[s].marked) { marked.push_back(s); } }
+            NodeBuilder nb = endpoint ? NodeBuilder::native(std::move(schema), std::move(cb), std::move(*endpoint))
+                                      : NodeBuilder::native(std::move(schema), std::move(cb));
+            if (!marked.empty()) { nb = nb.with_passive_inputs(marked); }
+            gb.add_node(std::move(nb));
         }
         for (std::size_t i = 0; i < p->nodes.size(); ++i)
         {
@@ -821,7 +839,8 @@ namespace
                     n.valid_mode     = (int)l[6];
                     for (std::int64_t s = 0; s < l[5] && (std::size_t)(9 + 3 * s) < l.size(); ++s)
                     {
-                        n.ins.push_back({(std::size_t)l[7 + 3 * s], l[8 + 3 * s] != 0, l[9 + 3 * s] != 0});
+                        n.ins.push_back({(std::size_t)l[7 + 3 * s], l[8 + 3 * s] == 1 || l[8 + 3 * s] == 2, l[9 + 3 * s] != 0,
+                                         l[8 + 3 * s] == 2 || l[8 + 3 * s] == 3});
                     }
                     cur->nodes.push_back(std::move(n));
                     break;
